@@ -16,6 +16,7 @@ type MyRaw struct {
 	conn net.Conn
 	r    *bufio.Reader
 	Caps uint32 // negotiated
+	Ext  uint32 // negotiated MariaDB extended capabilities (DialMyRawLogin, myrawcaps.go)
 	// ServerGreeting is the handshake payload received.
 	ServerGreeting []byte
 }
